@@ -3,8 +3,10 @@
 Decided by the theorems of lean-sched/XrlSched/Props/C16.lean over the footprint table regenerated from the
 working tree on every run; tied to the real library by harness/c16_hist.c (seeded histories of the whole API in
 one process vs the same calls in processes without history; checksums of every data section of libxrl; locale,
-cwd, stderr; retained error objects / results re-read at the end)."""
-import os, sys, re, json, time, subprocess, random, hashlib
+cwd, stderr; retained error objects / results re-read at the end).  The histories are run twice: on the tables as shipped
+(data/kissel_pe.dat is empty there: the Kissel / cascade family only fails) and on the regenerated Kissel configuration, where
+that family succeeds."""
+import os, sys, re, json, time, subprocess, random, hashlib, itertools
 HERE = os.path.dirname(os.path.abspath(__file__))
 sys.path.insert(0, os.path.join(os.path.dirname(HERE), 'tools'))
 import schedlib as sl
@@ -15,8 +17,29 @@ MODULE = 'XrlSched.Props.C16'
 NAMESPACE = 'XrlSched.C16'
 PROPS = os.path.join(sl.LEAN_DIR, 'XrlSched', 'Props', 'C16.lean')
 KEY_LOCALE = 'CompoundParser:setlocale(LC_NUMERIC) LC_NUMERIC=C.utf8'
-NONVACUITY = ['exAtomicWeight', 'exCaching', 'glibcExt_respects_pure']
+NONVACUITY = ['exAtomicWeight', 'exCaching', 'glibcExt_respects_pure', 'exCP', 'exCP_follows', 'exAddUser']
 ALLOW_DEFS = ['libm', 'allocFns', 'searchFns', 'stringFns', 'diagFns']
+ERR_RE = re.compile(r' e:\d|:~|bad-op|unparsed|noerr')
+INSERTING = ('AddBuiltin', 'ReadFileBuiltin')        # ops that EXPLICITLY insert into the built-in crystal array
+
+def opname(o): return o.split(' ', 1)[0].replace('retain-', '')
+
+def kissel_good_ops(meta, fam):
+    """a few calls per Kissel / cascade function with arguments that are valid on the regenerated table (K, L1, L3, M1 of Fe, Ag, Pb above
+    their edges; KL3, KL2, L3M5, L2M4 lines): deterministic, so that `succeeded at least once` does not depend on the seed"""
+    gen = xrlops.generic_functions(meta); out = []
+    for fn in fam:
+        if fn not in gen: continue
+        ret, ins, zout = gen[fn]; pools = []
+        for pn, kd in ins:
+            q = pn.lower()
+            if kd == 'i': pools.append(['26', '82', '47'] if q == 'z' else ['0', '1', '3', '4'] if 'shell' in q else ['-3', '-2', '-90', '-63'] if 'line' in q else ['0', '1'])
+            elif kd == 'd': pools.append([xrlops.hx(95.0), xrlops.hx(30.0)] if q in ('e', 'e0', 'energy') else [xrlops.hx(0.3), xrlops.hx(1.0)])
+            elif kd == 's': pools.append(['FeS2', 'PbO'])
+            else: pools.append(['@Si'])
+        combos = list(itertools.product(*pools)); step = max(1, len(combos) // 16)
+        out += ['%s %s E' % (fn, ' '.join(c)) for c in combos[::step][:16]]
+    return out
 DEPRECATION = re.compile(r'^(\w+ has been deprecated and will be removed in a future release of xraylib\.|Please remove all occurrences of this method in your code\.)$')
 
 class Hist:
@@ -74,7 +97,7 @@ def _run(ctx, replay):
     rep['tie_broken'] += ['footprint extraction: ' + p for p in fp_problems]
     # ---- 2. lake build, 3. audit --------------------------------------------------------------------
     evals = ['Gen.localeProtocols.all (fun p => p.restoring)', 'Gen.localeProtocols.length', 'localeEntries.length', 'pureEntries.length',
-             'Gen.mutatorEntries.length', 'Gen.fns.length']
+             'Gen.mutatorEntries.length', 'Gen.fns.length', 'Gen.userMutatorEntries.length']
     with sl.Lock():
         changed = sl.install_gen(lean_tmp)
         ok_props, blog = sl.lake_build(ctx, [MODULE])
@@ -90,11 +113,14 @@ def _run(ctx, replay):
     for w in NONVACUITY:
         if not re.search(r'\b%s\b' % re.escape(w), src): rep['problems'].append('non-vacuity witness %s missing from %s' % (w, MODULE))
     allow = sum(sl.names_in(PROPS, ALLOW_DEFS).values(), [])
-    explain = []
+    explain = []; explain_user = []
     if not ok_props:
         rep['proof_broken'] = sl.failing_theorems(blog, PROPS) or ['(module %s does not build)' % MODULE]
         rep['proof_log'] = sl.first_errors(blog)
-        explain = sl.explain_footprint(meta, set(allow) | {'setlocale'})
+        diag_sites = sl.names_in(PROPS, ['diagSites'])['diagSites']
+        explain = sl.explain_footprint(meta, set(allow) | {'setlocale'}, diag_sites=diag_sites)
+        file_fns = sl.names_in(PROPS, ['fileFns'])['fileFns']
+        explain_user = sl.explain_footprint(meta, set(allow) | set(file_fns), entries=meta.get('user_mutators', []))
     restoring = ev.get(evals[0])
     n_protocols = int(ev.get(evals[1], '0') or 0)
     # static protocol summary from the extractor (used when Lean could not be asked)
@@ -102,26 +128,44 @@ def _run(ctx, replay):
     if restoring is None:
         restoring = 'unknown'
     # ---- 5. the tie: histories on the real library --------------------------------------------------------
-    exe = sl.link_harness(ctx, objs, fl, 'c16_hist.c', 'c16_hist', extra=['-no-pie', '-Wl,-Map=' + ctx.sc.path('hist.map')], meta=meta)
-    regs = sl.map_regions(ctx.sc.path('hist.map'), ctx.sc.path('o_san') + os.sep)
-    if len(regs) < 20 or sum(r[1] for r in regs) < (1 << 20):
-        rep['tie_broken'].append('link map: only %d data regions / %d bytes of libxrl found' % (len(regs), sum(r[1] for r in regs)))
-    regfile = ctx.sc.path('regions.txt')
-    with open(regfile, 'w') as f: f.write(''.join('%x %x %s %s\n' % r for r in regs))
-    H = Hist(exe, regfile, ctx.sc)
-    sym = None
-    stats = dict(histories=0, ops_in_histories=0, distinct_ops=0, compared=0, state_checks=0, retained_objects=0, exec_fresh_checked=0,
-                 regions=len(regs), region_bytes=sum(r[1] for r in regs))
+    def harness(objs_, tag):
+        exe_ = sl.link_harness(ctx, objs_, fl, 'c16_hist.c', 'c16_hist' + tag, extra=['-no-pie', '-Wl,-Map=' + ctx.sc.path('hist%s.map' % tag)], meta=meta)
+        regs_ = sl.map_regions(ctx.sc.path('hist%s.map' % tag), ctx.sc.path('o_san') + os.sep)
+        if len(regs_) < 20 or sum(r[1] for r in regs_) < (1 << 20):
+            rep['tie_broken'].append('link map%s: only %d data regions / %d bytes of libxrl found' % (tag, len(regs_), sum(r[1] for r in regs_)))
+        regfile = ctx.sc.path('regions%s.txt' % tag)
+        with open(regfile, 'w') as f: f.write(''.join('%x %x %s %s\n' % r for r in regs_))
+        hh = Hist(exe_, regfile, ctx.sc); hh.sym = None; hh.tag = tag
+        return hh, regs_
+    H, regs = harness(objs, '')
+    exe = H.exe
+    files = xrlops.write_crystal_files(ctx.sc.dir)          # crystal files of the ReadFile ops, in the harness's working directory
+    good_files = [f for f in files if f in ('xv_user1.dat', 'xv_user2.dat')]
+    # the regenerated Kissel configuration: same code objects, other tables
+    HR = None; fam = sl.kissel_family(meta)
+    try:
+        HR, regsR = harness(sl.build_c_kissel(ctx, objs, 'address,undefined', 'san'), 'R')
+    except sl.BuildError as ex:
+        rep['tie_broken'].append('regenerated-Kissel configuration could not be built (data/kissel -> kissel_pe.dat -> prdata): %s' % str(ex)[:400])
+    stats = dict(histories=0, ops_in_histories=0, distinct_ops=0, compared=0, state_checks=0, retained_objects=0, retained_error_objects=0, exec_fresh_checked=0,
+                 regions=len(regs), region_bytes=sum(r[1] for r in regs), retained_errors_by_op={}, arr_checks=0)
     findings = []      # dict(kind, key, what, ops, env)
-    ok_texts = set(); err_texts = set()
+    ok_texts = set(); err_texts = set(); ok_kissel = set(); err_kissel = set()
 
-    def fresh_results(texts, env):
+    def fresh_results(texts, env, H=H):
         texts = sorted(set(texts))
         r = H.run('fresh', texts, env)
         out = {t: r['res'].get(i) for i, t in enumerate(texts)}
         return out, r
 
-    def check_history(ops, env, label, insertion=False):
+    def cats_of(s): return dict(x.split('=', 1) for x in s.split(',') if '=' in x)
+
+    def check_history(ops, env, label, insertion=False, H=H):
+        r_ = _check_history(ops, env, label, insertion, H)
+        for f_ in findings: f_.setdefault('H', H)
+        return r_
+
+    def _check_history(ops, env, label, insertion, H):
         """run one history; compare every op with its fresh-process result; check state/tables/retained/stderr"""
         lines = ['!state', '!snapshot'] + ops + ['!end', '!state', '!diff']
         h = H.run('hist', lines, env)
@@ -134,14 +178,31 @@ def _run(ctx, replay):
             h = H.run('hist', lines, env)
         if h['rc'] != 0:
             rep['tie_broken'].append('%s: history harness exited %d: %s' % (label, h['rc'], h['stderr'][-300:])); return
-        fr, fraw = fresh_results(ops, env)
+        fr, fraw = fresh_results(ops, env, H)
         stats['histories'] += 1; stats['ops_in_histories'] += len(ops)
-        inserted = [o.split(' ')[2] for o in ops if o.startswith('AddBuiltin ')]
+        inserted = [o.split(' ')[2] for o in ops if opname(o) == 'AddBuiltin'] + (['XvTric'] if any(opname(o) == 'ReadFileBuiltin' and 'xv_user2.dat' in o for o in ops) else [])
+        okT, errT = (ok_kissel, err_kissel) if H is HR else (ok_texts, err_texts)
         for i, o in enumerate(ops):
             a = h['res'].get(i); b = fr.get(o)
             stats['compared'] += 1
-            if a is not None and a == b: (ok_texts if not re.search(r' e:\d|:~|bad-op|unparsed|noerr', a) else err_texts).add(o)
-            if insertion and (o.startswith(('CrystalsList', 'AddBuiltin')) or any(x in o for x in inserted)): continue
+            if a is not None and a == b: (okT if not ERR_RE.search(a) else errT).add(o)
+            if a is not None and o.startswith('retain-') and re.search(r' e:\d', a):
+                stats['retained_errors_by_op'][opname(o)] = stats['retained_errors_by_op'].get(opname(o), 0) + 1
+            # the built-in crystal array, per call: only a SUCCESSFUL explicit insertion may change its contents
+            if a is not None:
+                stats['arr_checks'] += 1
+                changed = a.endswith(' ARR!') or ' ARR! ' in a
+                may = opname(o) in INSERTING and a.startswith('i:1')
+                if changed and not may:
+                    findings.append(dict(kind='crystal-array', what='the call changed the contents of the built-in crystal array%s' % (
+                        ' although the insertion FAILED (a failing insertion must leave the array untouched)' if opname(o) in INSERTING else ' (only an explicit insertion may)'),
+                        ops=ops[:i + 1], env=env, got=a, expected='array contents as before the call', label=label)); break
+                if may and not changed:
+                    rep['tie_broken'].append('%s: `%s` reports success but the contents of the built-in crystal array did not change: the per-call array checksum does not observe it' % (label, o))
+            if a is not None and ' LOCALE>' in a:
+                findings.append(dict(kind='locale', what='the call changed the process locale: LC_ALL is now %s' % a[a.index('LOCALE>') + 7:].split(' ')[0], ops=ops[:i + 1], env=env,
+                                     got=a, expected='locale as before the call (every category)', label=label, per_call=True)); break
+            if insertion and (opname(o) in ('CrystalsList',) + INSERTING or any(x in o for x in inserted)): continue
             if a is not None and ' STDOUT+' in a:
                 findings.append(dict(kind='stdout', what='the call wrote to standard output (%s): a standard stream is process-global state' % a[a.index('STDOUT+'):][:24], ops=[o], env=env,
                                      got=a, expected='nothing on standard output', label=label)); break
@@ -153,16 +214,25 @@ def _run(ctx, replay):
         if len(h['states']) == 2:
             s0, s1 = [s.split(' | ') for s in h['states']]
             if s0[1] == 'C.utf8': stats['utf8_locale_held'] = True
-            if s0[:2] != s1[:2]:
-                findings.append(dict(kind='locale', what='process locale changed by the history: %s -> %s' % (s0[:2], s1[:2]), ops=ops, env=env, label=label))
+            if len(s0) > 4 and all(v == 'C.utf8' for v in cats_of(s0[4]).values()): stats['utf8_all_categories_held'] = True
+            if s0[:2] != s1[:2] or s0[4:5] != s1[4:5]:
+                c0, c1 = cats_of(s0[4]) if len(s0) > 4 else {}, cats_of(s1[4]) if len(s1) > 4 else {}
+                chg = sorted(k for k in c0 if c0[k] != c1.get(k))
+                if not any(f.get('per_call') and f['label'] == label for f in findings):
+                    findings.append(dict(kind='locale', what='process locale changed by the history: categories %s: %s -> %s (LC_ALL %s -> %s)' % (
+                        chg, [c0[k] for k in chg], [c1.get(k) for k in chg], s0[0], s1[0]), ops=ops, env=env, label=label, categories=chg))
             if s0[2] != s1[2]:
                 findings.append(dict(kind='cwd', what='working directory changed: %s -> %s' % (s0[2], s1[2]), ops=ops, env=env, label=label))
+            if len(s0) > 5 and s0[5] != s1[5]:
+                d0, d1 = s0[5].split(' '), s1[5].split(' ')
+                findings.append(dict(kind='process-state', what='process-global state changed by the history (environment / signal dispositions / signal mask / rounding mode / open descriptors / umask / rand state): %s -> %s' % (
+                    [x for x, y in zip(d0, d1) if x != y], [y for x, y in zip(d0, d1) if x != y]), ops=ops, env=env, label=label))
+            elif len(s0) > 5: stats['process_state_checks'] = stats.get('process_state_checks', 0) + 1
             diff = [l for l in h['other'] if l.startswith('D ')]
             nd = [l for l in h['other'] if l.startswith('diffbytes')]
             if (s0[3] != s1[3] or diff):
-                nonlocal sym
-                if sym is None: sym = sl.symbol_at(exe)
-                where = sorted(set(sym(int(l.split()[1], 16)).split('+')[0] for l in diff))
+                if H.sym is None: H.sym = sl.symbol_at(H.exe)
+                where = sorted(set(H.sym(int(l.split()[1], 16)).split('+')[0] for l in diff))
                 crystal = [w for w in where if w in ('Crystal_arr', '__Crystal_arr')]
                 if insertion and crystal: stats['insertion_changed'] = crystal
                 if insertion: where = [w for w in where if w not in crystal]
@@ -171,9 +241,9 @@ def _run(ctx, replay):
         else:
             rep['tie_broken'].append('%s: expected two state lines, got %r' % (label, h['states']))
         for l in h['other']:
-            m = re.match(r'retained (\d+) changed (\d+)', l)
+            m = re.match(r'retained (\d+) changed (\d+)(?: errors (\d+))?', l)
             if m:
-                stats['retained_objects'] += int(m.group(1))
+                stats['retained_objects'] += int(m.group(1)); stats['retained_error_objects'] += int(m.group(3) or 0)
                 if int(m.group(2)):
                     findings.append(dict(kind='retained', what='an object handed to the caller earlier was changed by later calls: ' + ' '.join(x for x in h['other'] if x.startswith('retained-changed'))[:400], ops=ops, env=env, label=label))
         ux = stderr_unexpected(h['stderr'])
@@ -183,6 +253,8 @@ def _run(ctx, replay):
             # explicit insertions DO change state: the inserted name must be found afterwards (non-vacuity of the exemption)
             okq = [i for i, o in enumerate(ops) if o.startswith('GetCrystal ') and inserted and o.split(' ')[1] == inserted[0] and 'crystal:"' in (h['res'].get(i) or '')]
             stats['insertion_visible'] = len(okq)
+            stats['insertion_from_file_visible'] = len([i for i, o in enumerate(ops) if o.startswith('GetCrystal XvTric') and 'crystal:"XvTric"' in (h['res'].get(i) or '')])
+            stats['failed_insertions_checked'] = len([i for i, o in enumerate(ops) if opname(o) in INSERTING and not (h['res'].get(i) or '').startswith('i:1')])
         return h, fr
 
     C_ENV = dict(LC_ALL='C')
@@ -190,7 +262,8 @@ def _run(ctx, replay):
         txt = open(replay).read()
         env = dict(re.findall(r'^#env (\w+)=(\S*)$', txt, flags=re.M)) or C_ENV
         ops = split_ops(txt.splitlines())
-        check_history(ops, env, 'replay')
+        check_history(ops, env, 'replay', insertion=any(opname(o) in INSERTING for o in ops),
+                      H=(HR if (HR is not None and re.search(r'^#config kissel', txt, flags=re.M)) else H))
     else:
         nh, nops = (4, 2500) if ctx.tier == 'quick' else (30, 12000)
         all_ops = []
@@ -201,25 +274,63 @@ def _run(ctx, replay):
                 ops = split_ops(txt.splitlines()); all_ops += ops
                 check_history(ops, dict(re.findall(r'^#env (\w+)=(\S*)$', txt, flags=re.M)) or C_ENV, 'corpus ' + fn, insertion=any(o.startswith('AddBuiltin ') for o in ops))
         for i in range(nh):
-            g = xrlops.OpGen(random.Random(ctx.rng.getrandbits(64)), meta)
+            g = xrlops.OpGen(random.Random(ctx.rng.getrandbits(64)), meta, files=files)
             ops = g.ops(nops, allow_retain=True)
-            ops = [o for o in ops if not o.startswith('AddBuiltin')]
+            ops = [o for o in ops if opname(o) not in INSERTING]
             if i % 2 == 1: ops = ['XRayInit'] + ops           # with and without XRayInit
             else: ops = [o for o in ops if o != 'XRayInit']
             all_ops += ops
             check_history(ops, C_ENV, 'history %d' % i)
         stats['distinct_ops'] = len(set(all_ops))
         # a history with explicit insertions into the built-in crystal array
-        g = xrlops.OpGen(random.Random(ctx.rng.getrandbits(64)), meta)
-        ops = g.ops(600, allow_retain=True)
+        g = xrlops.OpGen(random.Random(ctx.rng.getrandbits(64)), meta, files=files)
+        ops = [o for o in g.ops(600, allow_retain=True) if opname(o) not in INSERTING]
         names = ['AaVerif0', 'MmVerif1', 'ZzVerif2']      # before, between and after the built-in names: an insertion must leave the others alone wherever it lands
         for k, nm in enumerate(names):
             ops.insert(100 + 150 * k, 'AddBuiltin @%s %s E' % (['Si', 'Ge', 'LiF'][k], nm))
-        ops += ['GetCrystal %s E' % names[0], 'CrystalsList E', 'AddBuiltin @Si %s E' % names[0]]
+        # failing insertions (duplicate name; a file one of whose names exists; a malformed file; a missing crystal): the array must stay as it is —
+        # judged per call by the contents checksum (` ARR!`), and by the lookups of XvNew / XvGood below, which must fail as in a fresh process
+        ops.insert(300, 'retain-AddBuiltin @Si Si E'); ops.insert(420, 'AddBuiltin @Ge %s N' % names[0])
+        ops.insert(430, 'retain-ReadFileBuiltin xv_dup.dat E'); ops.insert(440, 'ReadFileBuiltin xv_bad.dat E'); ops.insert(450, 'AddBuiltin @Unobtainium Qq E')
+        # a SUCCESSFUL Crystal_ReadFile into the built-in array
+        ops.insert(500, 'ReadFileBuiltin xv_user2.dat E')
+        ops += ['GetCrystal %s E' % names[0], 'CrystalsList E', 'AddBuiltin @Si %s E' % names[0], 'GetCrystal XvTric E', 'GetCrystal XvNew E', 'GetCrystal XvGood E', 'GetCrystal Qq N',
+                'ReadFileBuiltin xv_user2.dat E']
         ops += ['Crystal_UnitCellVolume @%s E' % c for c in ('TlAP', 'Si', 'AlphaQuartz', 'Muscovite', 'Beryl')] + ['Crystal_dSpacing @TlAP 1 1 1 E']
         check_history(ops, C_ENV, 'insertion history', insertion=True)
-        if not stats.get('insertion_changed') or not stats.get('insertion_visible'):
-            rep['tie_broken'].append('explicit crystal insertion left no trace (changed=%s, visible=%s): the harness does not observe Crystal_arr' % (stats.get('insertion_changed'), stats.get('insertion_visible')))
+        if not stats.get('insertion_changed') or not stats.get('insertion_visible') or not stats.get('insertion_from_file_visible'):
+            rep['tie_broken'].append('explicit crystal insertion left no trace (changed=%s, visible=%s, from file=%s): the harness does not observe Crystal_arr' % (
+                stats.get('insertion_changed'), stats.get('insertion_visible'), stats.get('insertion_from_file_visible')))
+        # ---- the regenerated Kissel configuration: the 63 Kissel / cascade entry points on their SUCCESS path -----------------------------------
+        if HR is not None:
+            gen_ = xrlops.generic_functions(meta); famg = [f_ for f_ in fam if f_ in gen_]
+            nk, kops = (1, 1500) if ctx.tier == 'quick' else (6, 6000)
+            good = kissel_good_ops(meta, fam)
+            for i in range(nk):
+                g = xrlops.OpGen(random.Random(ctx.rng.getrandbits(64)), meta, files=files)
+                g.Z = [26, 82, 47, 29, 56] + [g.rng.choice([0, 120, 99])]; g.E = [95.0, 30.0, 12.0] + [g.rng.uniform(1, 120) for _ in range(2)] + [g.rng.choice([0.0, -1.0, 1e4])]
+                ops = []
+                for _ in range(kops):
+                    r_ = g.rng.random()
+                    if r_ < 0.55: g.allow_retain = True; ops.append(g.generic_op(g.rng.choice(famg)))
+                    elif r_ < 0.70 and good: ops.append(g.rng.choice(good))
+                    else: ops.append(g.op(True))
+                ops = [o for o in ops if opname(o) not in INSERTING]
+                if i == 0: ops = good + ops                  # every function's known-good calls at least once, first in a history …
+                else: ops = ops + good                       # … and last
+                if i % 2 == 1: ops = ['XRayInit'] + ops
+                all_ops += ops
+                check_history(ops, C_ENV, 'Kissel history %d (regenerated kissel_pe.dat)' % i, H=HR)
+            ksucc = {f_: 0 for f_ in famg}
+            for o in ok_kissel:
+                if opname(o) in ksucc: ksucc[opname(o)] += 1
+            stats['kissel'] = dict(histories=nk, family=len(fam), family_generic=len(famg), distinct_succeeding_calls=sum(ksucc.values()),
+                                   distinct_failing_calls=len([o for o in err_kissel if opname(o) in ksucc]), succeeded_per_function=ksucc,
+                                   regions=len(regsR), region_bytes=sum(r[1] for r in regsR))
+            never = sorted(f_ for f_, n_ in ksucc.items() if n_ == 0)
+            if never and not any(f_.get('label', '').startswith('Kissel') for f_ in findings):
+                rep['tie_broken'].append('regenerated-Kissel configuration: %d Kissel/cascade functions never succeeded (%s): their success path was not exercised' % (len(never), ', '.join(never[:12])))
+            stats['distinct_ops'] = len(set(all_ops))
         # an error object returned by one call is never affected by later calls: a slot that still holds an error is handed to
         # later failing calls (direct failures and failures one level down that are propagated) — harness/c04heap.c `err 6..11`
         try:
@@ -246,10 +357,17 @@ def _run(ctx, replay):
             stats['exec_fresh_checked'] += 1
             if r1['res'].get(0) != fr.get(o):
                 rep['tie_broken'].append('fork-fresh and exec-fresh disagree on `%s`: %r vs %r' % (o, fr.get(o), r1['res'].get(0)))
-        # the locale: the application runs with LC_NUMERIC=C.utf8
-        g = xrlops.OpGen(random.Random(ctx.rng.getrandbits(64)), meta)
-        ops = [o for o in g.ops(400 if ctx.tier == 'quick' else 3000, allow_retain=True) if not o.startswith('AddBuiltin')]
-        check_history(ops, dict(LC_NUMERIC='C.utf8'), 'history under LC_NUMERIC=C.utf8')
+        # the locale: the application runs with every category = C.utf8 (LC_ALL), and with LC_NUMERIC=C.utf8 alone; every category is
+        # compared per call (` LOCALE>`) and end to end.  (In a process whose categories are all "C" a non-restoring setlocale(LC_CTYPE /
+        # LC_COLLATE / LC_ALL, "C") would be invisible.)
+        for env_, n_ in ((dict(LC_ALL='C.utf8'), 400 if ctx.tier == 'quick' else 3000), (dict(LC_NUMERIC='C.utf8'), 200 if ctx.tier == 'quick' else 1500)):
+            g = xrlops.OpGen(random.Random(ctx.rng.getrandbits(64)), meta, files=files)
+            ops = [o for o in g.ops(n_, allow_retain=True) if opname(o) not in INSERTING]
+            check_history(ops, env_, 'history under %s' % ' '.join('%s=%s' % kv for kv in env_.items()))
+        if HR is not None:
+            g = xrlops.OpGen(random.Random(ctx.rng.getrandbits(64)), meta, files=files); g.allow_retain = True
+            ops = [g.generic_op(g.rng.choice(famg)) for _ in range(150)] + good[::4]
+            check_history(ops, dict(LC_ALL='C.utf8'), 'Kissel history under LC_ALL=C.utf8', H=HR)
         # targeted search when the footprint theorem is broken: hammer the entries that reach the offending functions
         if explain:
             ents = sorted(set(x['entry'] for x in explain))
@@ -265,37 +383,47 @@ def _run(ctx, replay):
                     vals_ = []
                     for pn_, kd in ins_:
                         if kd == 'i': vals_.append([str(v) for v in apisweep.int_values(pn_, False, ctx.rng, ctx.tier, False)])
-                        else: vals_.append([xrlops.hx(v) for v in ([0.5] if pn_.lower() in ('pz', 'q') else [1.0] if pn_.lower() in ('theta', 'phi') else [10.0, 0.05])])
+                        else: vals_.append([xrlops.hx(v) for v in ([0.5] if pn_.lower() in ('pz', 'q') else [1.0] if pn_.lower() in ('theta', 'phi') else [10.0, 0.05] + ([95.0] if fn_ in fam else []))])
                     combos = [[]]
                     for vs in vals_: combos = [c + [v] for c in combos for v in vs]
                     if len(combos) > 120000: combos = ctx.rng.sample(combos, 120000)
                     allops = ['%s %s E' % (fn_, ' '.join(c)) for c in combos]
+                    Hx = HR if (HR is not None and fn_ in fam) else H
                     for k0 in range(0, len(allops), 6000):
-                        check_history(allops[k0:k0 + 6000], C_ENV, 'exhaustive sweep of %s [%d..]' % (fn_, k0))
+                        check_history(allops[k0:k0 + 6000], C_ENV, 'exhaustive sweep of %s [%d..]' % (fn_, k0), H=Hx)
                         if any(f.get('label', '').startswith('exhaustive sweep') for f in findings): break
                 for rnd in range(6):
                     g = xrlops.OpGen(random.Random(ctx.rng.getrandbits(64)), meta); g.fresh_p = 0.05
                     ops = [g.generic_op(g.rng.choice(ents_g)) for _ in range(800)]
                     check_history(ops, C_ENV, 'targeted history %d (%s)' % (rnd, ','.join(ents_g[:4])))
-                    if any(f['kind'] in ('result', 'tables', 'retained') for f in findings): break
+                    if HR is not None and any(e_ in fam for e_ in ents_g):
+                        check_history([o for o in ops if opname(o) in fam] + kissel_good_ops(meta, [e_ for e_ in ents_g if e_ in fam]), C_ENV, 'targeted Kissel history %d' % rnd, H=HR)
+                    if any(f['kind'] in ('result', 'tables', 'retained', 'stderr', 'stdout', 'crystal-array') for f in findings): break
 
     # ---- shrink + classify ---------------------------------------------------------------------------------
-    def differs(ops, env, kind):
+    def differs(ops, env, kind, H):
         if kind == 'result':
-            h = H.run('hist', ops, env); fr, _ = fresh_results([ops[-1]], env)
+            h = H.run('hist', ops, env); fr, _ = fresh_results([ops[-1]], env, H)
             return h['rc'] == 0 and h['res'].get(len(ops) - 1) != fr.get(ops[-1])
+        if kind == 'crystal-array':
+            h = H.run('hist', ops, env)
+            return h['rc'] == 0 and ' ARR!' in (h['res'].get(len(ops) - 1) or '')
+        if kind == 'stderr':
+            h = H.run('hist', ops, env)
+            return h['rc'] == 0 and bool(stderr_unexpected(h['stderr']))
         h = H.run('hist', ['!state', '!snapshot'] + ops + ['!end', '!state', '!diff'], env)
         if h['rc'] != 0 or len(h['states']) != 2: return False
         s0, s1 = [s.split(' | ') for s in h['states']]
-        if kind == 'locale': return s0[:2] != s1[:2]
+        if kind == 'locale': return s0[:2] != s1[:2] or s0[4:5] != s1[4:5]
+        if kind == 'process-state': return s0[5:6] != s1[5:6]
         if kind == 'tables': return s0[3] != s1[3]
         if kind == 'retained': return any(re.match(r'retained \d+ changed [1-9]', l) for l in h['other'])
         return False
 
     def shrink(f):
-        ops = list(f['ops']); kind = f['kind']; env = f['env']
-        if kind not in ('result', 'locale', 'tables', 'retained') or not differs(ops, env, kind): return ops
-        keep_last = kind == 'result'
+        ops = list(f['ops']); kind = f['kind']; env = f['env']; Hf = f.get('H', H)
+        if kind not in ('result', 'locale', 'tables', 'retained', 'crystal-array', 'stderr', 'process-state') or not differs(ops, env, kind, Hf): return ops
+        keep_last = kind in ('result', 'crystal-array')
         n = 2; budget = 120
         while len(ops) > (2 if keep_last else 1) and budget > 0:
             body = ops[:-1] if keep_last else ops
@@ -303,7 +431,7 @@ def _run(ctx, replay):
             for s in range(0, len(body), chunk):
                 cand = body[:s] + body[s + chunk:] + (ops[-1:] if keep_last else [])
                 budget -= 1
-                if cand and differs(cand, env, kind):
+                if cand and differs(cand, env, kind, Hf):
                     ops = cand; n = max(n - 1, 2); reduced = True; break
                 if budget <= 0: break
             if not reduced:
@@ -323,7 +451,7 @@ def _run(ctx, replay):
             for e, c in meta['classes'].items():
                 if 'setlocale' in set().union(*[set(meta['functions'][x]['exts']) for x in sl.closure(meta, e)]): fam.add(e)
             in_family = len(f['min']) == 1 and bool(xrlops.exercised(f['min'], meta) & fam)
-            if in_family and restoring != 'true' and f['env'].get('LC_NUMERIC') == 'C.utf8':
+            if in_family and restoring != 'true' and 'C.utf8' in (f['env'].get('LC_NUMERIC'), f['env'].get('LC_ALL')) and f.get('categories', ['NUMERIC']) == ['NUMERIC']:
                 f['key'] = KEY_LOCALE
         hit = [k for k in known if k[0] == f.get('key')]
         if hit: rep['known'].append((f, hit[0]))
@@ -349,6 +477,7 @@ def _run(ctx, replay):
         if f.get('got') is not None or f.get('expected') is not None:
             b += '# after this history the last call returned: %s\n# in a process without history it returns:    %s\n' % (f.get('got'), f.get('expected'))
         for k, v in f['env'].items(): b += '#env %s=%s\n' % (k, v)
+        if HR is not None and f.get('H') is HR: b += '#config kissel   (tables of the regenerated Kissel configuration: tools/regen_kissel.py)\n'
         return b + '\n'.join(f.get('min') or f['ops']) + '\n'
     if new_viol:
         body = '# violation of %s found on the real library (harness/c16_hist.c); minimised history below\n' % ID
@@ -356,6 +485,7 @@ def _run(ctx, replay):
         for f in new_viol[1:4]: body += '\n# also: %s (%d ops)\n' % (f['what'], len(f.get('min') or f['ops']))
         if broken: body += '\n# broken obligations: %s\n' % json.dumps(dict(proof=rep['proof_broken'], tie=rep['tie_broken'], other=rep['problems']))[:3000]
         for x in explain[:20]: body += '# readonly_footprint: entry %s reaches %s (%s): writes %s, external calls outside the allow-list %s\n' % (x['entry'], x['function'], x['file'], x['writes'], x['exts'])
+        for x in explain_user[:10]: body += '# user_mutator_footprint: %s (array argument not NULL) reaches %s (%s): writes %s, external calls outside allow-list + file input %s\n' % (x['entry'], x['function'], x['file'], x['writes'], x['exts'])
         path = core.write_replay(ctx, body)
         print('VIOLATION property=%s replay=%s' % (ID, path)); exit_code = 1
     elif broken:
@@ -363,6 +493,7 @@ def _run(ctx, replay):
         if rep['proof_broken']:
             body += '# theorems that no longer check: %s\n# %s\n' % (', '.join(rep['proof_broken']), rep.get('proof_log', '').replace('\n', '\n# '))
         for x in explain[:40]: body += '# readonly_footprint: entry %s reaches %s (%s): writes %s, external calls outside the allow-list %s\n' % (x['entry'], x['function'], x['file'], x['writes'], x['exts'])
+        for x in explain_user[:10]: body += '# user_mutator_footprint: %s (array argument not NULL) reaches %s (%s): writes %s, external calls outside allow-list + file input %s\n' % (x['entry'], x['function'], x['file'], x['writes'], x['exts'])
         for tb in rep['tie_broken']: body += '# tie broken: %s\n' % tb
         for pb in rep['problems']: body += '# %s\n' % pb
         path = core.write_replay(ctx, body)
@@ -374,13 +505,16 @@ def _run(ctx, replay):
                checker_cmd='cd lean-sched && lake build %s  (then `#print axioms` on each theorem; thorough: leanchecker)' % MODULE,
                trusted_base=sl.TRUSTED_BASE, theorems=[dict(name=th, axioms=axioms.get(th)) for th in theorems],
                traces_validated_against_impl=stats['compared'], evaluations=stats['compared'] + stats['state_checks'] + stats['exec_fresh_checked'],
-               distinct_nontrivial=len(ok_texts), distinct_failing_calls=len(err_texts), distinct_calls=stats['distinct_ops'],
+               distinct_nontrivial=len(ok_texts) + len(ok_kissel), distinct_failing_calls=len(err_texts) + len(err_kissel), distinct_calls=stats['distinct_ops'],
+               distinct_nontrivial_shipped_tables=len(ok_texts), distinct_nontrivial_regenerated_kissel=len(ok_kissel),
                rule='seeded histories of API calls (tools/xrlops.py: every public function with a generic signature + hand-written ops for parser, NIST, '
                     'radionuclides, crystals, error API, deprecated functions; arguments from small per-run pools plus fresh draws; valid and failing calls; '
                     'with/without XRayInit; objects retained across calls).  Every call of a history is compared bit-for-bit with the same call in a process '
                     'without history (forked before any library call; a sample re-checked in exec\'ed processes).  distinct_nontrivial = number of distinct '
                     'call texts (function + argument tuple) that were executed inside a history, agreed with the fresh process AND produced a value or '
-                    'object rather than an error; distinct_failing_calls counts the distinct erroring ones',
+                    'object rather than an error; distinct_failing_calls counts the distinct erroring ones; both are summed over the two data configurations '
+                    '(tables as shipped, where data/kissel_pe.dat is empty and the Kissel/cascade family can only fail; tables with kissel_pe.dat regenerated from '
+                    'data/kissel, where it succeeds: history_stats.kissel.succeeded_per_function)',
                samples=[dict(call=o) for o in (all_ops[:3] + all_ops[-3:] if not replay else [])] +
                        [dict(finding=f['what'], minimal_history=f.get('min'), env=f['env']) for f in findings[:3]],
                footprint=dict(functions=len(meta['functions']), public=len(meta['classes']), classes={c: sum(1 for v in meta['classes'].values() if v == c) for c in set(meta['classes'].values())},
